@@ -831,6 +831,42 @@ func (c *Ctx) stageInterleave(refs map[refKey]*Ref, keys []refKey) {
 		sort.Slice(ic.spec.Preempt, func(a, b int) bool { return ic.spec.Preempt[a].Step < ic.spec.Preempt[b].Step })
 		cases = append(cases, ic)
 	}
+	// systematic part: switch right after every package-level write of a task (the only
+	// places where renders can meet through process-wide state), to another task that
+	// also writes package-level state, and optionally back at that task's first write
+	var writers []refKey
+	for _, k := range keys {
+		if refs[k].Res.GWTotal > 0 {
+			writers = append(writers, k)
+		}
+	}
+	c.Ev.Probes["documents_writing_package_level_state"] = len(writers)
+	maxPairs := 40
+	if c.Tier == "thorough" {
+		maxPairs = 600
+	}
+	nSys := 0
+	for pi := 0; pi < maxPairs && len(writers) > 0; pi++ {
+		a := writers[rng.Intn(len(writers))]
+		b := writers[rng.Intn(len(writers))]
+		nw := refs[a].Res.GWTotal
+		if nw > 6 {
+			nw = 6
+		}
+		for k := 0; k < nw; k++ {
+			for variant := 0; variant < 2; variant++ {
+				ic := icase{spec: &Spec{ID: fmt.Sprintf("ilw/%d/%d/%d", pi, k, variant), Order: OrderPlan{Mode: "canon"}}, ks: []refKey{a, b}}
+				ic.spec.Tasks = [][]Op{docOps(refs[a].Sc, refs[a].Cfg, "", false), docOps(refs[b].Sc, refs[b].Cfg, "", false)}
+				ic.spec.PreemptW = []PreemptW{{Task: 0, K: k, To: 1}}
+				if variant == 1 {
+					ic.spec.PreemptW = append(ic.spec.PreemptW, PreemptW{Task: 1, K: 0, To: 0})
+				}
+				cases = append(cases, ic)
+				nSys++
+			}
+		}
+	}
+	c.Ev.Probes["interleavings_at_package_level_writes"] = nSys
 	specs := make([]*Spec, len(cases))
 	for i := range cases {
 		specs[i] = cases[i].spec
@@ -893,6 +929,15 @@ func (c *Ctx) minimizeInterleave(bad *Spec, task int, ref *Ref, r0 *Result) *Fin
 			i++
 		}
 	}
+	for i := 0; i < len(cur.PreemptW); {
+		cand := cloneSpec(cur)
+		cand.PreemptW = append(append([]PreemptW{}, cur.PreemptW[:i]...), cur.PreemptW[i+1:]...)
+		if differs(cand) {
+			cur = cand
+		} else {
+			i++
+		}
+	}
 	// drop other tasks (keep indices stable by emptying them)
 	for t := range cur.Tasks {
 		if t == task || len(cur.Tasks[t]) == 0 {
@@ -905,7 +950,7 @@ func (c *Ctx) minimizeInterleave(bad *Spec, task int, ref *Ref, r0 *Result) *Fin
 		}
 	}
 	class := "interleave"
-	where := fmt.Sprintf("%d-preemptions", len(cur.Preempt))
+	where := fmt.Sprintf("%d-preemptions", len(cur.Preempt)+len(cur.PreemptW))
 	detail := ""
 	if cl, wh, de := crashOf(r0); cl != "" {
 		where = cl + "@" + wh
@@ -916,7 +961,7 @@ func (c *Ctx) minimizeInterleave(bad *Spec, task int, ref *Ref, r0 *Result) *Fin
 	}
 	return &Finding{Class: class, Scenario: ref.Sc.Name, Where: where,
 		Oracle: "each of N concurrently rendered documents (own font configuration) must produce its solo trace",
-		Detail: fmt.Sprintf("task %d of %d, preempt=%v: %s", task, len(cur.Tasks), cur.Preempt, detail), Spec: cur, Spec2: ref.Spec, Expect: fmt.Sprintf("task %d trace-differs-from-spec2", task)}
+		Detail: fmt.Sprintf("task %d of %d, preempt=%v preempt_at_package_writes=%v: %s", task, len(cur.Tasks), cur.Preempt, cur.PreemptW, detail), Spec: cur, Spec2: ref.Spec, Expect: fmt.Sprintf("task %d trace-differs-from-spec2", task)}
 }
 
 func (c *Ctx) firstTraceDiffTask(a, b *Spec, taskB int) string {
